@@ -605,3 +605,192 @@ pub fn replay(path: &Path, quiet: bool) -> i32 {
         }
     }
 }
+
+
+/// Per-run log hashes of the first `nruns` runs of a scenario (for the determinism self-test).
+pub fn run_hashes(scn: &dyn Scenario, tier: Tier, seed: u64, nruns: u64, workers: usize) -> Vec<(u64, u64, usize)> {
+    let next = AtomicU64::new(0);
+    let out: Mutex<Vec<(u64, u64, usize)>> = Mutex::new(Vec::new());
+    std::thread::scope(|sc| {
+        for _ in 0..workers {
+            sc.spawn(|| {
+                loop {
+                    let i = next.fetch_add(1, Ordering::Relaxed);
+                    if i >= nruns {
+                        break;
+                    }
+                    let plan = scn.plan(seed, i, tier);
+                    let o = execute(&plan);
+                    out.lock().unwrap().push((i, o.log_hash, o.violations.len()));
+                }
+            });
+        }
+    });
+    let mut v = out.into_inner().unwrap();
+    v.sort();
+    v
+}
+
+
+// ------------------------------------------------------------------------------------------
+// crash containment
+
+fn child(args: &[&str]) -> std::process::Command {
+    let exe = std::env::current_exe().expect("current exe");
+    let mut c = std::process::Command::new(exe);
+    c.args(args).env("VERIF_INNER", "1");
+    c
+}
+
+fn describe_status(st: &std::process::ExitStatus) -> String {
+    #[cfg(unix)]
+    {
+        use std::os::unix::process::ExitStatusExt;
+        if let Some(sig) = st.signal() {
+            return format!("killed by signal {sig}");
+        }
+    }
+    format!("exit status {:?}", st.code())
+}
+
+/// Does executing this plan kill the process?
+fn plan_crashes(plan: &Plan, dir: &Path) -> Option<String> {
+    let f = ReplayFile {
+        property: plan.property.clone(),
+        reported_as: Some(plan.property.clone()),
+        class: "process-crash".into(),
+        backend: plan.nodes.first().map(|b| b.name().to_string()).unwrap_or_default(),
+        op: "process".into(),
+        detail: String::new(),
+        message: String::new(),
+        seed: plan.seed,
+        run: plan.run,
+        log_hash: String::new(),
+        original_steps: plan.steps.len(),
+        plan: plan.clone(),
+    };
+    let path = dir.join(format!(".crash-probe-{}.json", std::process::id()));
+    std::fs::write(&path, serde_json::to_string(&f).ok()?).ok()?;
+    let out = child(&["replay", path.to_str()?, "--quiet"]).output().ok()?;
+    let _ = std::fs::remove_file(&path);
+    if out.status.code().is_none() { Some(describe_status(&out.status)) } else { None }
+}
+
+/// Run a check in a child process; if the child is killed (abort, segfault), locate the run,
+/// minimise its plan with child executions, write a replay file and report it.
+pub fn supervise(id: &str, tier: Tier, seed: u64) -> i32 {
+    let st = child(&["check", id, tier.name()]).status();
+    let st = match st {
+        Ok(s) => s,
+        Err(e) => {
+            eprintln!("harness error: cannot spawn the check process: {e}");
+            return 2;
+        }
+    };
+    if let Some(c) = st.code() {
+        return c;
+    }
+    let how = describe_status(&st);
+    println!("the simulator process died ({how}) while executing library code: hunting the run");
+    let Some(scn) = crate::props::scenario(id) else { return 2 };
+    let runs = std::env::var("VERIF_RUNS").ok().and_then(|s| s.parse().ok()).unwrap_or_else(|| scn.runs(tier));
+    // sequential hunt in children, in chunks (a child dies at its first crashing run)
+    let mut culprit: Option<u64> = None;
+    let out = child(&["crashhunt", id, tier.name(), &seed.to_string(), "0", &runs.to_string()]).output();
+    if let Ok(o) = out {
+        if o.status.code().is_none() {
+            let text = String::from_utf8_lossy(&o.stdout);
+            culprit = text.lines().rev().find_map(|l| l.strip_prefix("start ").and_then(|n| n.parse().ok()));
+        }
+    }
+    let Some(run) = culprit else {
+        println!("harness error: the crash did not reproduce in a sequential child process (it may depend on real thread timing)");
+        return 2;
+    };
+    let replay_dir = verif_dir().join("replays");
+    let _ = std::fs::create_dir_all(&replay_dir);
+    let plan = scn.plan(seed, run, tier);
+    let mut best = plan.clone();
+    let mut execs = 0;
+    // ddmin over steps with child executions
+    let mut chunk = best.steps.len().div_ceil(2).max(1);
+    while execs < 60 {
+        let mut i = 0;
+        let mut removed = false;
+        while i < best.steps.len() && execs < 60 {
+            let end = (i + chunk).min(best.steps.len());
+            let mut c = best.clone();
+            c.steps.drain(i..end);
+            execs += 1;
+            if !c.steps.is_empty() && plan_crashes(&c, &replay_dir).is_some() {
+                best = c;
+                removed = true;
+            } else {
+                i = end;
+            }
+        }
+        if chunk == 1 && !removed {
+            break;
+        }
+        chunk = if chunk == 1 { 1 } else { chunk.div_ceil(2) };
+    }
+    let how2 = plan_crashes(&best, &replay_dir).unwrap_or_else(|| how.clone());
+    let file = ReplayFile {
+        property: scn.property().to_string(),
+        reported_as: Some(scn.property().to_string()),
+        class: "process-crash".into(),
+        backend: best.nodes.first().map(|b| b.name().to_string()).unwrap_or_default(),
+        op: "process".into(),
+        detail: how2.clone(),
+        message: format!("executing this plan kills the process ({how2}): the library aborted or accessed invalid memory"),
+        seed,
+        run,
+        log_hash: String::new(),
+        original_steps: plan.steps.len(),
+        plan: best.clone(),
+    };
+    let path = replay_dir.join(format!("{}-process-crash-{}-{:08x}.json", scn.property(), file.backend, crate::prng::mix(seed, "crash", run) as u32));
+    if std::fs::write(&path, serde_json::to_string_pretty(&file).unwrap_or_default()).is_err() {
+        eprintln!("harness error: cannot write replay file");
+        return 2;
+    }
+    println!(
+        "violation: {} process-crash on {} (run {run}; {how2}; minimised {} -> {} steps in {execs} child executions)",
+        scn.property(),
+        file.backend,
+        plan.steps.len(),
+        best.steps.len()
+    );
+    println!("VIOLATION property={} replay={}", scn.property(), path.display());
+    1
+}
+
+/// `replay` with crash containment: the plan is executed in a child process.
+pub fn replay_supervised(path: &Path, quiet: bool) -> i32 {
+    let Some(p) = path.to_str() else { return 2 };
+    let mut args = vec!["replay", p];
+    if quiet {
+        args.push("--quiet");
+    }
+    match child(&args).status() {
+        Ok(st) => match st.code() {
+            Some(c) => c,
+            None => {
+                let prop = std::fs::read_to_string(path)
+                    .ok()
+                    .and_then(|s| serde_json::from_str::<ReplayFile>(&s).ok())
+                    .map(|f| f.reported_as.unwrap_or(f.property))
+                    .unwrap_or_else(|| "C04".into());
+                if !quiet {
+                    println!("reproduced: executing the plan kills the process ({})", describe_status(&st));
+                }
+                println!("VIOLATION property={prop} replay={}", path.display());
+                1
+            }
+        },
+        Err(e) => {
+            eprintln!("harness error: {e}");
+            2
+        }
+    }
+}
